@@ -1,4 +1,5 @@
 import MJ.Model.Loc
+import MJ.Model.LocAst
 /-!
 Line driver for C14.  Requests (one per line), answers (one per line):
 
@@ -11,10 +12,17 @@ Line driver for C14.  Requests (one per line), answers (one per line):
   (push_span), `o` (pop_span), `a` (add), `s<span>` (add_with_span); then `get_line/get_span` per pc
 * `tbl <ops>` → `get_line/get_span` for every pc in `0 .. n+1` after the add sequence
 * `caret a:b:c:d:e:f` → `c<col>w<width>` or `-`
+* `cga <s|e> <node>` → the model code generator (`MJ/Model/LocAst.lean`) on a dumped AST (statement /
+  expression): `<wf>|<bad>|<root table>;<block>=<table>;…` — `wf` = `1` or `0:<kind>:<flag>` of the first node
+  that violates `wf`; `bad` = the instructions whose line (simple line semantics `execL`) is not within the
+  range of the emitting construct, `pc:name:line:lo:hi` joined by `,`, or `D` if `execL` and the side tables
+  disagree about a line; tables: `name/line/span` per pc; a fourth field lists, per table, the range `lo-hi` of the
+  construct every instruction belongs to.
+  `<node>` = `( kind sl:sc:so:el:ec:eo flags name num lo hi child* )`, blank-separated.
 
 `<spec>`: segments joined by `.`; `R<n>x<hex>` = unit repeated n times, `H<hex>` = literal.
 -/
-open MJ MJ.Loc
+open MJ MJ.Loc MJ.LocAst
 
 def hexVal (c : Char) : Nat :=
   if '0' ≤ c ∧ c ≤ '9' then c.toNat - '0'.toNat
@@ -151,6 +159,104 @@ def doCaret (sp : String) : String :=
     | none => "-"
     | some (c, w) => s!"c{c}w{w}"
 
+
+def kindOf (s : String) : Kind :=
+  match s with
+  | "absent" => .absent | "body" => .body | "var" => .var | "const" => .const | "slice" => .slice
+  | "not" => .not | "neg" => .neg | "bin" => .bin | "cmp" => .cmp | "cmpop" => .cmpop | "if" => .ifx
+  | "filter" => .filter | "test" => .test | "attr" => .attr | "item" => .item | "call" => .call
+  | "list" => .list | "tuple" => .tuple | "map" => .map | "apos" => .apos | "akw" => .akw
+  | "asplat" => .asplat | "akwsplat" => .akwsplat | "template" => .template | "emitexpr" => .emitexpr
+  | "emitraw" => .emitraw | "for" => .forloop | "ifcond" => .ifcond | "with" => .withblock
+  | "withassign" => .withassign | "set" => .set | "setblock" => .setblock | "autoescape" => .autoescape
+  | "filterblock" => .filterblock | "block" => .block | "import" => .importS | "fromimport" => .fromimport
+  | "importname" => .importname | "extends" => .extends | "include" => .includeS | "macro" => .macroS
+  | "callermacro" => .callermacro | "macroarg" => .macroarg | "callblock" => .callblock
+  | "continue" => .continueS | "break" => .breakS | "do" => .doS
+  | _ => .absent
+
+mutual
+partial def parseNode : List String → Option (Node × List String)
+  | "(" :: kind :: sp :: flags :: name :: num :: lo :: hi :: rest =>
+    match parseSpan sp ":", parseKids rest [] with
+    | some span, some (kids, rest') =>
+      some (.mk (kindOf kind) span (flags.toNat?.getD 0 % 2 == 1)
+        (if name == "-" then "" else String.ofList (unhex name)) (num.toNat?.getD 0) (lo.toNat?.getD 0) (hi.toNat?.getD 0) kids,
+        rest')
+    | _, _ => none
+  | _ => none
+partial def parseKids : List String → List Node → Option (List Node × List String)
+  | ")" :: rest, acc => some (acc.reverse, rest)
+  | toks, acc =>
+    match parseNode toks with
+    | some (n, rest) => parseKids rest (n :: acc)
+    | none => none
+end
+
+mutual
+partial def firstBad : Node → Option Node
+  | n =>
+    if !(n.lo ≤ n.hi && (!mustAnchor n || (n.lo ≤ n.sp.startLine && n.sp.startLine ≤ n.hi)) && (n.kind != .const || n.flag) && shapeOk n.kind n.kids) then some n
+    else firstBadKids n.lo n.hi n.kids
+partial def firstBadKids (lo hi : Nat) : List Node → Option Node
+  | [] => none
+  | c :: rest =>
+    if !(lo ≤ c.lo && c.hi ≤ hi) then some c
+    else match firstBad c with
+      | some b => some b
+      | none => firstBadKids lo hi rest
+end
+
+def genTable (g : Gen) : String :=
+  let names := g.names.reverse
+  ",".intercalate ((List.range names.length).map (fun pc => s!"{names.getD pc "?"}/{lookupStr g.cg.instrs pc}"))
+
+/-- the construct ranges the events are tagged with, per generator like `execG` files the instructions:
+    (current, suspended, finished by block name) -/
+def tagsOf : List Ev → List (Nat × Nat) → List (List (Nat × Nat) × String) → List (String × List (Nat × Nat)) →
+    List (Nat × Nat) × List (String × List (Nat × Nat))
+  | [], cur, _, done => (cur.reverse, done)
+  | .add _ lo hi :: r, cur, st, done => tagsOf r ((lo, hi) :: cur) st done
+  | .addSpan _ _ lo hi :: r, cur, st, done => tagsOf r ((lo, hi) :: cur) st done
+  | .raw _ lo hi :: r, cur, st, done => tagsOf r ((lo, hi) :: cur) st done
+  | .blockBegin nm :: r, cur, st, done => tagsOf r [] ((cur, nm) :: st) done
+  | .blockEnd :: r, cur, st, done =>
+    match st with
+    | [] => tagsOf r cur st done
+    | (outer, nm) :: rest => tagsOf r outer rest ((done.filter (·.1 != nm)) ++ [(nm, cur.reverse)])
+  | _ :: r, cur, st, done => tagsOf r cur st done
+
+def tagStr (l : List (Nat × Nat)) : String := ",".intercalate (l.map (fun t => s!"{t.1}-{t.2}"))
+
+def genLines (g : Gen) : List (Option Nat) :=
+  (List.range g.names.length).map (fun pc => match g.cg.instrs.getLine pc with | .ok l => l | .panic => none)
+
+def doCga (mode : String) (toks : List String) : String :=
+  match parseNode toks with
+  | none => "bad-case"
+  | some (n, _) =>
+    let evs := if mode == "e" then cExpr [] n else cStmt [] n
+    let w := if wf n then "1" else
+      match firstBad n with
+      | some b => s!"0:{repr b.kind}:{b.flag}:{b.sp.startLine}:{b.lo}:{b.hi}"
+      | none => "0:?"
+    let ems := (execL LS.init evs).2
+    let g := execG GS.init evs
+    let bad := (List.range ems.length).filterMap (fun i =>
+      match ems[i]? with
+      | some e => if e.ok then none else some s!"{i}:{e.name}:{e.line.getD 0}:{e.lo}:{e.hi}"
+      | none => none)
+    -- cross-check of the two semantics: the multiset of (name, line) pairs agrees
+    let tblPairs := (g.done.map (fun d => (d.2.names.reverse.zip (genLines d.2)))).flatten ++ (g.cur.names.reverse.zip (genLines g.cur))
+    let emPairs := ems.map (fun e => (e.name, e.line))
+    let key := fun (p : String × Option Nat) => s!"{p.1}/{p.2.getD 0}"
+    let srt := fun (l : List (String × Option Nat)) => (l.map key).toArray.qsort (· < ·)
+    let agree := srt tblPairs == srt emPairs
+    let tables := ";".intercalate ([genTable g.cur] ++ g.done.map (fun d => s!"{d.1}={genTable d.2}"))
+    let tg := tagsOf evs [] [] []
+    let tags := ";".intercalate ([tagStr tg.1] ++ tg.2.map (fun d => s!"{d.1}={tagStr d.2}"))
+    s!"{w}|{if agree then "" else "D"}{",".intercalate bad}|{tables}|{tags}"
+
 def handle (line : String) : String :=
   match line.trimAscii.toString.splitOn " " with
   | ["pos", keep, spec, offs] => doPos keep spec offs
@@ -158,6 +264,7 @@ def handle (line : String) : String :=
   | ["tbl", ops] => doTbl ops
   | ["cg", ops] => doCg ops
   | ["caret", sp] => doCaret sp
+  | "cga" :: mode :: toks => doCga mode toks
   | _ => "bad-case"
 
 partial def loop (h : IO.FS.Stream) (out : IO.FS.Stream) : IO Unit := do
